@@ -154,6 +154,82 @@ fn check_calendar_date(y: i32, mo: u8, da: u8, h: u8, mi: u8, s: u8) -> Result<(
 }
 
 #[derive(Clone, Debug, Serialize, Deserialize, Hash)]
+pub struct ArcChunk {
+    first: u64,
+    count: u64,
+}
+
+fn check_archive_words(c: &ArcChunk, word: &dyn Fn(u64) -> (u16, u16)) -> Result<(), String> {
+    use crate::refzip::{build, parse, ArchiveSpec, Content, EntrySpec};
+    use std::io::Cursor;
+    let mut entries = Vec::with_capacity(c.count as usize);
+    for k in c.first..c.first + c.count {
+        let (d, t) = word(k);
+        let mut e = EntrySpec::simple(format!("e{k}").as_bytes(), 0, Content::Bytes(vec![]));
+        e.dos_date = d;
+        e.dos_time = t;
+        entries.push(e);
+    }
+    let spec = ArchiveSpec::plain(entries);
+    let b = build::build(&spec).map_err(|e| format!("harness: {e}"))?;
+    let mut za = zip::ZipArchive::new(Cursor::new(&b.bytes[..])).map_err(|e| format!("cannot open archive of timestamps: {e}"))?;
+    if za.len() as u64 != c.count {
+        return Err("entry count".into());
+    }
+    for j in 0..c.count as usize {
+        let (d, t) = word(c.first + j as u64);
+        let f = za.by_index_raw(j).map_err(|e| format!("by_index_raw: {e}"))?;
+        let lm = f.last_modified();
+        if (lm.datepart(), lm.timepart()) != (d, t) {
+            return Err(format!("archive entry with DOS words ({d:#06x},{t:#06x}) is reported as ({:#06x},{:#06x}) by the seekable reader", lm.datepart(), lm.timepart()));
+        }
+    }
+    // streaming reader sees the local header words
+    let mut cur = Cursor::new(&b.bytes[..]);
+    let mut j = 0u64;
+    loop {
+        match zip::read::read_zipfile_from_stream(&mut cur) {
+            Ok(Some(f)) => {
+                let (d, t) = word(c.first + j);
+                let lm = f.last_modified();
+                if (lm.datepart(), lm.timepart()) != (d, t) {
+                    return Err(format!("archive entry with DOS words ({d:#06x},{t:#06x}) is reported as ({:#06x},{:#06x}) by the streaming reader", lm.datepart(), lm.timepart()));
+                }
+                j += 1;
+            }
+            Ok(None) => break,
+            Err(e) => return Err(format!("streaming reader failed on entry {j}: {e}")),
+        }
+    }
+    if j != c.count {
+        return Err(format!("streaming reader saw {j} of {} entries", c.count));
+    }
+    // re-written unchanged: raw copy of every 16th entry and a fresh entry with the read timestamp
+    let mut sink = Cursor::new(Vec::new());
+    {
+        let mut w = std::mem::ManuallyDrop::new(zip::ZipWriter::new(&mut sink));
+        let mut expect = Vec::new();
+        for j in (0..c.count as usize).step_by(16) {
+            let f = za.by_index_raw(j).map_err(|e| format!("by_index_raw: {e}"))?;
+            let lm = f.last_modified();
+            w.raw_copy_file(f).map_err(|e| format!("raw_copy_file: {e}"))?;
+            expect.push(word(c.first + j as u64));
+            w.start_file(format!("n{j}"), zip::write::FileOptions::default().compression_method(zip::CompressionMethod::Stored).last_modified_time(lm)).map_err(|e| format!("start_file: {e}"))?;
+            expect.push(word(c.first + j as u64));
+        }
+        w.finish().map_err(|e| format!("finish: {e}"))?;
+        let out = sink.into_inner();
+        let p = parse::parse(&out[..], parse::Opts::strict()).map_err(|e| format!("rewritten archive does not parse: {e}"))?;
+        for (k, (pe, (d, t))) in p.entries.iter().zip(expect.iter()).enumerate() {
+            if (pe.date, pe.time) != (*d, *t) {
+                return Err(format!("timestamp words ({d:#06x},{t:#06x}) read from an archive were re-written as ({:#06x},{:#06x}) (rewritten entry {k})", pe.date, pe.time));
+            }
+        }
+    }
+    Ok(())
+}
+
+#[derive(Clone, Debug, Serialize, Deserialize, Hash)]
 pub struct Ctor {
     y: u16,
     mo: u8,
@@ -320,6 +396,33 @@ pub fn run(ctx: &mut Ctx) {
             ctx.violation("cal_dates", json!({"y":y,"mo":mo,"d":d,"h":h,"mi":mi,"s":s}), m);
         }
         ctx.exhaustive_all = true;
+    }
+
+    // (e) timestamps read from archives and re-written: every date word x boundary time words and
+    // every time word x boundary date words, through the seekable reader, the streaming reader and
+    // a raw copy into a new archive (independent builder in, independent strict parser out)
+    {
+        let btimes: [u16; 4] = [0, 0xFFFF, (23 << 11) | (59 << 5) | 29, 0x54CF];
+        let bdates: [u16; 4] = [0, 0xFFFF, 0x0021, 0x4D71];
+        const CH: u64 = 4096;
+        let chunks = 2 * 65536 * 4 / CH;
+        ctx.enumerate::<ArcChunk>(
+            "archive_words",
+            chunks,
+            &|i| ArcChunk { first: i * CH, count: CH },
+            &|c: &ArcChunk, info: &mut Info| {
+                info.nontrivial = true;
+                let word = |k: u64| -> (u16, u16) {
+                    if k < 65536 * 4 {
+                        ((k / 4) as u16, btimes[(k % 4) as usize])
+                    } else {
+                        let j = k - 65536 * 4;
+                        (bdates[(j % 4) as usize], (j / 4) as u16)
+                    }
+                };
+                Verdict::from_result(check_archive_words(c, &word))
+            },
+        );
     }
 
     // (c) random joint constructor values
